@@ -28,6 +28,7 @@ type choice struct {
 	altOpen bool
 	val     *big.Int
 	where   string
+	n       int // kind "n": free n-way choice (no solver involved)
 }
 
 type pathState struct {
